@@ -278,6 +278,9 @@ class Driver:
                                  after=hooks._pools_json(a))
                     self.violate('C01', 'illegal_proposal_executed', op='alloc',
                                  machine_state=state, machine=mid)
+                    if state == 'foreign_reserved':
+                        self.violate('C09', 'ran_on_foreign_reservation', op='alloc',
+                                     machine_state=state, machine=mid)
                     # keep the model usable: the machine now carries a second task
                 else:
                     self.unchanged(op, b, a, 'allocation on %s machine' % state, raised)
